@@ -1,6 +1,7 @@
 (* C10 - CNF encodings characterise exactly the intended argument sets.
    Statements only (vocabulary: Proofs/EncSpec.v); proofs are [exact]. *)
 From Crusta Require Import Proofs.EncSpec Proofs.EncAll.
+From Crusta Require Proofs.Clauses2.
 
 (* models, projected on the argument variables, are exactly the base sets: no more ... *)
 Theorem C10_sound : forall e thr F n, 1 <= thr -> compact_af F n -> enc_sound e thr F n.
@@ -30,6 +31,60 @@ Theorem C10_defined : forall e thr range F,
   enc_clauses e thr range F = None <-> (e = StDefault /\ range = true).
 Proof. exact EncAll.all_defined. Qed.
 
+(* ---- the clauses of the property text spelled out (the definitions enc_sound, ... unfolded;
+   Proofs/Clauses2.v).  [enc_clauses e thr range F] = the CNF encoder e generates for F (threshold thr
+   of the hybrid encoder, with / without range variables); arguments are 0..n-1; a valuation m denotes
+   the set of the arguments whose variable [arg_var e a] is true. *)
+(* "translating back the models (restricted to the argument variables) yields exactly the conflict-free,
+   admissible, complete or stable sets the encoder is meant to capture, no more and no fewer" *)
+Theorem C10_models_are_exactly_the_intended_sets : forall e thr F n C,
+  1 <= thr -> compact_af F n -> enc_clauses e thr false F = Some C ->
+  let intended := match e with
+                  | AuxCf | ExpCf => cfs | AuxAdm => adm | AuxCo | ExpCo | HybCo => co | StDefault => st
+                  end in
+  (forall m : val, vmodels m C = true -> intended F (filter (fun a => m (arg_var e a)) (seq 0 n))) /\
+  (forall S, intended F S ->
+     exists m : val, vmodels m C = true /\ forall a, a < n -> (m (arg_var e a) = true <-> In a S)).
+Proof. exact Clauses2.models_exactly_target. Qed.
+
+(* "with the range extension, a range variable can be true only for an argument in the range of the
+   model's set, and every such set has a model whose range variables equal its range" *)
+Theorem C10_range_variables_are_the_range : forall e thr F n C,
+  1 <= thr -> compact_af F n -> enc_clauses e thr true F = Some C ->
+  let intended := match e with
+                  | AuxCf | ExpCf => cfs | AuxAdm => adm | AuxCo | ExpCo | HybCo => co | StDefault => st
+                  end in
+  (forall m : val, vmodels m C = true ->
+     intended F (filter (fun a => m (arg_var e a)) (seq 0 n)) /\
+     forall i, i < n -> m (range_var e n i) = true ->
+               in_range F (filter (fun a => m (arg_var e a)) (seq 0 n)) i) /\
+  (forall S, intended F S ->
+     exists m : val, vmodels m C = true /\
+       (forall a, a < n -> (m (arg_var e a) = true <-> In a S)) /\
+       (forall i, i < n -> (m (range_var e n i) = true <-> in_range F S i))).
+Proof. exact Clauses2.range_variables_exact. Qed.
+
+(* "distinct arguments are mapped to distinct literals that never collide with auxiliary or range
+   variables", every encoder, with and without range: [arg_to_lit] is injective and positive; its variable
+   is no range variable and lies outside the auxiliary zone of the encoder ([aux_zone]: the attacker-
+   disjunction variables of the aux_var encoders, the fresh variables above the argument / range block
+   of the hybrid encoder); range variables are distinct and outside that zone too; and every literal
+   of the generated CNF is a non-zero literal over one of these three classes of variables *)
+Theorem C10_literals_never_collide : forall e thr range F n,
+  1 <= thr -> compact_af F n ->
+  (forall a b, arg_to_lit e a = arg_to_lit e b -> a = b) /\
+  (forall a, (0 < arg_to_lit e a)%Z /\ lit_var (arg_to_lit e a) = arg_var e a) /\
+  (forall a b, a < n -> b < n -> arg_var e a <> range_var e n b) /\
+  (forall a, a < n -> ~ aux_zone e n range (arg_var e a)) /\
+  (forall a b, range_var e n a = range_var e n b -> a = b) /\
+  (forall a, a < n -> range = true -> ~ aux_zone e n range (range_var e n a)) /\
+  (forall C, enc_clauses e thr range F = Some C -> forall c l, In c C -> In l c ->
+     l <> 0%Z /\
+     ((exists a, a < n /\ lit_var l = arg_var e a) \/
+      (range = true /\ exists a, a < n /\ lit_var l = range_var e n a) \/
+      aux_zone e n range (lit_var l))).
+Proof. exact Clauses2.literals_never_collide. Qed.
+
 Print Assumptions C10_sound.
 Print Assumptions C10_complete.
 Print Assumptions C10_range_sound.
@@ -37,3 +92,6 @@ Print Assumptions C10_range_complete.
 Print Assumptions C10_layout.
 Print Assumptions C10_assignment_to_extension.
 Print Assumptions C10_defined.
+Print Assumptions C10_models_are_exactly_the_intended_sets.
+Print Assumptions C10_range_variables_are_the_range.
+Print Assumptions C10_literals_never_collide.
